@@ -137,8 +137,21 @@ LoopShared(ss) == \E i \in DOMAIN ss : ss[i].k = "for" /\
                      (LoopShared(ss[i].body) \/ \E b \in DeepBins(ss[i].body) : b.r.k = "ref" /\ b.l.k = "bin" /\ b.r.n \notin Declared0(ss[i].body))
 SharedOperandMerge(stmts) == LoopShared(stmts) \/ Merge(stmts)
 
+AllSub2(stmts) == UNION {SubE(stmts[i].e) : i \in {i \in DOMAIN stmts : stmts[i].k \in {"let", "prop"}}}
+(* KF-C01-multicondition-sametype: a chain of comparisons joined by && / || is folded into ONE multi-condition decider; when two of   *)
+(* the compared values are different sources of the SAME signal type they arrive on different colours, but the condition rows carry no   *)
+(* network selection, so every row reads the sum of both.                                                                                *)
+RECURSIVE CmpLeaves(_)
+CmpLeaves(e) == IF e.k = "bin" /\ e.op \in {"&&", "||"} THEN CmpLeaves(e.l) \cup CmpLeaves(e.r) ELSE IF IsCmp(e) THEN {e} ELSE {}
+RefsOfCmp(c) == {x.n : x \in {y \in {c.l, c.r} : y.k = "ref"}}
+MultiCondSameType(stmts) ==
+  \E e \in AllSub2(stmts) : e.k = "bin" /\ e.op \in {"&&", "||"} /\
+     \E c1, c2 \in CmpLeaves(e) : \E n1 \in RefsOfCmp(c1), n2 \in RefsOfCmp(c2) :
+        n1 # n2 /\ InType(stmts, n1) # "" /\ InType(stmts, n1) = InType(stmts, n2)
+
 KnownFinding(stmts, clause) ==
-  IF clause \in {"C01_value", "C02_bag", "C06_enable", "C01_settles", "R2_equal"} /\ SharedOperandMerge(stmts) THEN "KF-C01-shared-operand-merge"
+  IF clause \in {"C01_value", "C06_enable"} /\ MultiCondSameType(stmts) THEN "KF-C01-multicondition-sametype"
+  ELSE IF clause \in {"C01_value", "C02_bag", "C06_enable", "C01_settles", "R2_equal"} /\ SharedOperandMerge(stmts) THEN "KF-C01-shared-operand-merge"
   ELSE IF clause = "C06_condition" /\ EnableDropped(stmts) THEN "KF-C06-enable-dropped"
   ELSE IF clause = "C06_enable" /\ NegatedShared(stmts) THEN "KF-C06-negated-shared-condition"
   ELSE IF clause \in {"C04_iterates", "C04_reader"} /\ DeciderChain(stmts) THEN "KF-C04-decider-chain"
@@ -154,9 +167,9 @@ KnownFinding(stmts, clause) ==
 (* KF-C08-small-pole-span: grid poles double as circuit relays with a 9-tile span whatever their type; a small pole reaches  *)
 (* 7.5 tiles: circuit wires to small poles between 7.5 and 9 tiles long.                                                     *)
 (* KF-C18-split-grid: pole clusters are placed around distant groups of entities without a connecting line of poles:         *)
-(* user entities >= 30 tiles apart give two separate electric networks.                                                      *)
+(* user entities >= 8 tiles apart give separate electric networks.                                                      *)
 PlacesFarApart(stmts) == \E i, j \in DOMAIN stmts : stmts[i].k = "place" /\ stmts[j].k = "place" /\ stmts[i].x.k = "num" /\ stmts[j].x.k = "num"
-                            /\ (stmts[i].x.v - stmts[j].x.v >= 30 \/ stmts[i].y.v - stmts[j].y.v >= 30)
+                            /\ (stmts[i].x.v - stmts[j].x.v >= 8 \/ stmts[i].y.v - stmts[j].y.v >= 8)
 KnownFindingR(rec, clause) ==
   LET poles == IF "poles" \in DOMAIN rec THEN rec.poles ELSE "" IN
   IF clause = "C18_powered" /\ poles = "big" THEN "KF-C18-big-supply"
